@@ -333,7 +333,14 @@ def text_cases(rng, n):
            dict(text=True, stages=['{d: {a: 1, b: 2}}', "{d: !call:vmod.f{{'delete': False}} {b: !del , c: 3}}"], expect={'d': {'a': 1, 'c': 3}}),
            dict(text=True, stages=['{l: [x, y, z]}', "{l: !path:cwd{{'delete': False}} [q]}"], expect={'l': ['q', 'y', 'z']}),
            dict(text=True, stages=['{l: [a, b, !force c]}', '{l: !path [x, y]}'], expect={'l': ['c', 'y']}),
-           dict(text=True, stages=['{d: {a: 1, b: !force 2}}', '{d: !bind:vmod.f {c: 3}}'], expect={'d': {'b': 2, 'c': 3}})]
+           dict(text=True, stages=['{d: {a: 1, b: !force 2}}', '{d: !bind:vmod.f {c: 3}}'], expect={'d': {'b': 2, 'c': 3}}),
+           # (c) a deleting node deletes only when it is NOT outranked by what is there - and what is there includes the outcome of the earlier
+           # merges: a !weak container that took a standard-priority key-wise update is a standard-priority node from then on
+           dict(text=True, stages=['{a: !weak {x: 1}, b: 0}', "{a: !metadata{{'delete': True, 'priority': -1}} }"], expect={'b': 0}),
+           dict(text=True, stages=['{a: {x: 1}}', "{a: !metadata{{'delete': True, 'priority': -1}} }"], expect={'a': {'x': 1}}),
+           dict(text=True, stages=['{a: !weak {x: 1}, b: 0}', '{a: {y: 2}}', '{a: !del }'], expect={'b': 0}),
+           dict(text=True, stages=['{a: !weak {x: 1}}', '{a: {y: 2}}', "{a: !metadata{{'delete': True, 'priority': -1}} }"], expect={'a': {'x': 1, 'y': 2}}),
+           dict(text=True, stages=['{a: {a: !weak {a: 1}}}', '{a: {a: {b: 2}}}', "{a: {a: !metadata{{'delete': True, 'priority': -1}} }}"], expect={'a': {'a': {'a': 1, 'b': 2}}})]
     for _ in range(n):
         b = gen.gen_doc(rng, PLAIN, root_tag_ok=False)
         d = gen.gen_doc(rng, PLAIN, root_tag_ok=False)
